@@ -162,7 +162,7 @@ def judge_prog(prog, res):
         return None
     try:
         ref = progen.interpret(prog)
-    except (progen.Unsupported, RecursionError):
+    except (progen.Unsupported, progen.TooBig, RecursionError):
         return None
     return proglib.compare(ref, prog["final_ty"], res["runs"][0])
 
